@@ -607,7 +607,7 @@ class Dataset(AbstractDataset, dict, OpMixin, GetSetDelAttrMixin):
         if not inplace:
             return ds
 
-    def reduce_axis(self, func, axis=0, keepdims=False, keepattrs=False, **kwargs):
+    def reduce_axis(self, func, axis=0, keepdims=False, keepattrs=False, newaxis=None, **kwargs):
         """ reduce an axis in a Dataset
 
         Parameters
@@ -620,7 +620,9 @@ class Dataset(AbstractDataset, dict, OpMixin, GetSetDelAttrMixin):
         # prepare new axes
         pos, name = self._get_axis_info(axis)
         if keepdims:
-            newaxes = [ax.copy() if ax.name != name else Axis(func(ax.values, axis=0, **kwargs), ax.name) for ax in self.axes]
+            if newaxis is None:
+                newaxis = Axis(func(self.axes[name].values, axis=0, **kwargs), name)
+            newaxes = [ax.copy() if ax.name != name else newaxis for ax in self.axes]
         else:
             newaxes = [ax.copy() for ax in self.axes if ax.name != name ]
         newdims = [ax.name for ax in newaxes]
@@ -729,7 +731,8 @@ class Dataset(AbstractDataset, dict, OpMixin, GetSetDelAttrMixin):
         kwargs = _interp_internal_get_weights(curaxis.values, newaxis.values)
 
         # loop over all dimarray
-        return obj.reduce_axis(_interp_internal_from_weight, axis=axis, keepdims=True, keepattrs=True, left=left, right=right, **kwargs)
+        # the new axis is exactly `values` (interpolating the old labels would give left / right outside their range)
+        return obj.reduce_axis(_interp_internal_from_weight, axis=axis, keepdims=True, keepattrs=True, newaxis=newaxis, left=left, right=right, **kwargs)
 
     def interp_like(self, other, **kwargs):
         """Analogous to DimArray.interp_like
